@@ -923,6 +923,82 @@ def _(i, st, a, c):
     return [(s, UNIT) for s, acc in res]
 
 
+import itertools as _it
+_tmp_ids = _it.count(7000000)
+
+
+def _concrete_eq(x, y):
+    """structural equality of two values without symbolic leaves; Unsupported otherwise"""
+    if isinstance(x, (Agg, Var)) and isinstance(y, (Agg, Var)):
+        if getattr(x, 'tag', getattr(x, 'name', None)) != getattr(y, 'tag', getattr(y, 'name', None)) or len(x.items) != len(y.items):
+            return False
+        return all(_concrete_eq(p, q) for p, q in zip(x.items, y.items))
+    if is_z3(x) or is_z3(y):
+        raise Unsupported('comparison of symbolic keys in dedup / retain')
+    return x == y
+
+
+@model(r'Vec::dedup_by_key')
+def _(i, st, a, c):
+    # keys through the closure (receives &mut T), consecutive equal keys removed; keys must be concrete
+    v = i.deref_read(st, a[0])
+    items = list(v.items)
+    work = [(st, [])]
+    for k, it in enumerate(items):
+        nxt = []
+        for s, acc in work:
+            hid = next(_tmp_ids)
+            s.heap[hid] = it
+            for s2, key in i.call_closure(s, a[1], [Ref(('H', hid))]):
+                nxt.append((s2, acc + [key]))
+        work = nxt
+    out = []
+    for s, keys in work:
+        kept = [items[k] for k in range(len(items)) if k == 0 or not _concrete_eq(keys[k], keys[k - 1])]
+        # std semantics: compare with the last KEPT element's key
+        kept, last = [], None
+        for k in range(len(items)):
+            if last is None or not _concrete_eq(keys[k], last):
+                kept.append(items[k])
+                last = keys[k]
+        i.deref_write(s, a[0], Agg(v.tag, kept))
+        out.append((s, UNIT))
+    return out
+
+
+@model(r'Vec::dedup$')
+def _(i, st, a, c):
+    v = i.deref_read(st, a[0])
+    kept = []
+    for it in v.items:
+        if not kept or not _concrete_eq(it, kept[-1]):
+            kept.append(it)
+    i.deref_write(st, a[0], Agg(v.tag, kept))
+    return UNIT
+
+
+@model(r'Vec::retain')
+def _(i, st, a, c):
+    v = i.deref_read(st, a[0])
+    items = list(v.items)
+    work = [(st, [])]
+    for it in items:
+        nxt = []
+        for s, acc in work:
+            hid = next(_tmp_ids)
+            s.heap[hid] = it
+            for s2, keep in i.call_closure(s, a[1], [Ref(('H', hid))]):
+                if is_z3(keep):
+                    raise Unsupported('Vec::retain with a symbolic predicate')
+                nxt.append((s2, acc + ([it] if keep else [])))
+        work = nxt
+    out = []
+    for s, kept in work:
+        i.deref_write(s, a[0], Agg(v.tag, kept))
+        out.append((s, UNIT))
+    return out
+
+
 @model(r'<.* as Iterator>::collect')
 def _(i, st, a, c): return Agg('Vec', _as_list(i, st, a[0]))
 
